@@ -298,7 +298,8 @@ func TestCheck(t *testing.T) {
 	run.Assume("the Go toolchain (go build, offline, scratch module without dependencies) is the reference semantics")
 	run.Assume("overflow is excluded by construction: every integer expression carries an interval and is reduced with % m before it can leave 61 bits")
 	run.Assume("Go leaves the order of a variable read relative to a call in the same expression unspecified: a statement either reads shared state and calls only pure functions, or calls anything and reads only locals")
-	run.Assume("outside the documented dialect and not generated: closures, goroutines, channels, new, two-value type assertions, struct values (pointers only), sub-slices of non-byte slices, panics in a return statement of a function with defer")
+	run.Assume("outside the documented dialect and not generated: closures (function literals are generated, they see their own parameters and package state only), goroutines, channels, new, two-value type assertions, struct values (pointers only), sub-slices of non-byte slices, panics in a return statement of a function with defer")
+	run.Assume("the manifest name of an exported function is its Go name with the first rune lower-cased (unicode.ToLower); a procedure is Void in the manifest, leaves nothing on a bare VM and hands Null to the caller of System.Contract.Call")
 	run.Assume("constructs that were found to deviate are kept out of the random programs and exercised by directed programs with their own signatures (see directed_test.go)")
 
 	nprog := ev.Pick(150, 4000)
@@ -595,6 +596,8 @@ func genObs(k string) string {
 		return "procedure_call_statements_inside_loops"
 	case k == "tail-procedure-call":
 		return "tail_procedure_call_statements"
+	case k == "recover-after-recovered-panic":
+		return "recover_after_recovered_panic_templates"
 	case k == "lambda":
 		return "function_literals"
 	case k == "lambda-procedure":
